@@ -142,7 +142,15 @@ impl BitW {
         }
     }
     pub fn uvlc(&mut self, v: u32) {
-        // value v is coded as (v+1) with leading zeros = floor(log2(v+1))
+        // value v is coded as (v+1) with leading zeros = floor(log2(v+1)); AV1 spec 4.10.3:
+        // 32 leading zeros mean 2^32 - 1 and no value bits follow
+        if v == u32::MAX {
+            for _ in 0..32 {
+                self.bit(false);
+            }
+            self.bit(true);
+            return;
+        }
         let x = v as u64 + 1;
         let lz = 63 - x.leading_zeros() as usize;
         for _ in 0..lz {
@@ -171,7 +179,7 @@ impl Default for BitW {
 /// Field values of an AV1 sequence header (AV1 spec section 5.5). Every branch of the syntax is
 /// selectable; `write` emits exactly the spec's bit layout, so the expected av1C fields are known
 /// by construction, without parsing.
-#[derive(Clone, Debug, PartialEq, Eq, Hash)]
+#[derive(Clone, Debug, PartialEq, Eq, Hash, serde::Serialize, serde::Deserialize)]
 pub struct SeqHdr {
     pub profile: u8,
     pub still: bool,
